@@ -3,6 +3,21 @@
 From XV Require Import lib.Bytes lib.Xml gen.Serve C08.Model.
 From Coq Require Import ZArith Lia ZifyBool ZifyNat ZifyN.
 
+(* ---- internal/stream/reader.go, WebSocket framing (table read from the source):
+   a framing element called close ends the input, and only as a top-level element ---- *)
+Lemma tbl_ws_close :
+  sv_ws_eof_locals = [str "close"] /\ sv_ws_eof_top_only = true /\ sv_ws_eof_unrecognised = 0.
+Proof. vm_compute. repeat split. Qed.
+
+Lemma ws_ends_nested d x : d <> 0%N -> ws_ends d x = false.
+Proof.
+  intro H. unfold ws_ends. destruct tbl_ws_close as [_ [-> _]]. cbn [negb orb].
+  apply N.eqb_neq in H. rewrite H. apply andb_false_r.
+Qed.
+
+Lemma ws_ends_top x : ws_ends 0 x = in_list x sv_ws_eof_locals.
+Proof. unfold ws_ends. cbn [N.eqb]. rewrite orb_true_r. apply andb_true_r. Qed.
+
 Section Reading.
 Variable ws : bool.
 Notation scan := (scan ws).
@@ -105,7 +120,8 @@ Lemma ec_dirty pd0 c t l :
 Proof.
   intro Hc. destruct t as [n a|n|b|k b]; cbn [clean] in Hc.
   - (* start *)
-    ec_unfold. unfold sr_classify, dirty_err.
+    assert (Hwe : ws_ends (pd0 + N.of_nat (S c)) (nlocal n) = false) by (apply ws_ends_nested; lia).
+    ec_unfold. unfold sr_classify, dirty_err. rewrite Hwe.
     destruct (ws && bytes_eqb (nspace n) sv_ns_framing) eqn:Ef;
     destruct (bytes_eqb (nspace n) sv_ns_stream) eqn:Es;
     cbn [negb andb] in Hc; try discriminate Hc; cbn [negb].
@@ -343,12 +359,16 @@ Proof.
   - inversion H; subst. eexists. reflexivity.
   - destruct t as [n a|n|b|k b].
     + destruct (clean ws (TStart n a)) eqn:Hc; [discriminate|]. inversion H; subst. clear H.
-      cbn [clean] in Hc. unfold sr_classify, dirty_err.
+      cbn [clean] in Hc. unfold sr_classify, top_dirty_err, dirty_err. rewrite ws_ends_top.
       destruct (ws && bytes_eqb (nspace n) sv_ns_framing) eqn:Ef;
       destruct (bytes_eqb (nspace n) sv_ns_stream) eqn:Es;
-      cbn [negb andb] in Hc; try discriminate Hc; cbn [negb].
-      * eexists; reflexivity.
-      * eexists; reflexivity.
+      cbn [negb andb] in Hc; try discriminate Hc; cbn [negb andb].
+      * unfold in_list, sv_ws_eof_locals; cbn [existsb].
+        match goal with |- context [bytes_eqb (nlocal n) ?x || false] => destruct (bytes_eqb (nlocal n) x) end;
+        eexists; reflexivity.
+      * unfold in_list, sv_ws_eof_locals; cbn [existsb].
+        match goal with |- context [bytes_eqb (nlocal n) ?x || false] => destruct (bytes_eqb (nlocal n) x) end;
+        eexists; reflexivity.
       * destruct (bytes_eqb (nlocal n) s_error); [eexists; reflexivity|].
         destruct (bytes_eqb (nlocal n) s_stream); eexists; reflexivity.
     + unfold sr_classify, dirty_err. cbn [clean] in H.
@@ -746,8 +766,8 @@ Proof.
   assert (H : top_err (c_ws c) toks = Some (EStreamErr cond)).
   { unfold toks. cbn [top_err clean nspace].
     replace (bytes_eqb sv_ns_stream sv_ns_stream) with true by reflexivity. cbn [negb andb].
-    unfold dirty_err. cbn [nspace nlocal].
-    replace (bytes_eqb sv_ns_stream sv_ns_framing) with false by reflexivity. rewrite andb_false_r.
+    unfold top_dirty_err, dirty_err. cbn [nspace nlocal].
+    replace (bytes_eqb sv_ns_stream sv_ns_framing) with false by reflexivity. rewrite !andb_false_r. cbn [andb].
     replace (bytes_eqb s_error s_error) with true by reflexivity.
     rewrite (se_scan_simple cond a1 n1 n2 rest Ht). reflexivity. }
   destruct (c08_top c hf toks _ H) as [E1 E2]. split; [exact E1|]. rewrite E2.
@@ -762,6 +782,41 @@ Proof.
   assert (H : top_err (c_ws c) (TEnd n :: rest) = Some EEOF).
   { cbn [top_err clean]. rewrite H1. cbn [negb]. unfold dirty_err. rewrite H2. reflexivity. }
   apply (c08_top c hf _ _ H).
+Qed.
+
+(* WebSocket framing: the peer's top-level <close/> ends Serve like </stream:stream> *)
+Lemma c08_ws_close c hf n a rest :
+  c_ws c = true -> bytes_eqb (nspace n) sv_ns_framing = true -> nlocal n = str "close" ->
+  s_invs (serve_all c hf (TStart n a :: rest)) = [] /\ s_ret (serve_all c hf (TStart n a :: rest)) = None.
+Proof.
+  intros Hw Hf Hl.
+  assert (H : top_err (c_ws c) (TStart n a :: rest) = Some EEOF).
+  { cbn [top_err clean]. rewrite Hw, Hf. cbn [andb negb]. rewrite andb_false_r.
+    unfold top_dirty_err. rewrite Hf, Hl. destruct tbl_ws_close as [-> _]. reflexivity. }
+  apply (c08_top c hf _ _ H).
+Qed.
+
+(* any other framing element (<open/>) on an established stream ends it with an error *)
+Lemma c08_ws_restart c hf n a rest :
+  c_ws c = true -> bytes_eqb (nspace n) sv_ns_framing = true -> in_list (nlocal n) sv_ws_eof_locals = false ->
+  s_invs (serve_all c hf (TStart n a :: rest)) = [] /\ s_ret (serve_all c hf (TStart n a :: rest)) = Some ERestart.
+Proof.
+  intros Hw Hf Hl.
+  assert (H : top_err (c_ws c) (TStart n a :: rest) = Some ERestart).
+  { cbn [top_err clean]. rewrite Hw, Hf. cbn [andb negb]. rewrite andb_false_r.
+    unfold top_dirty_err, dirty_err. rewrite Hf, Hl. reflexivity. }
+  apply (c08_top c hf _ _ H).
+Qed.
+
+(* inside an element every framing element, <close/> included, is a stream-level
+   construct whose error is the unexpected restart, never the end of the input *)
+Lemma c08_ws_nested ws n a r :
+  ws && bytes_eqb (nspace n) sv_ns_framing = true ->
+  clean ws (TStart n a) = false /\ dirty_err ws (TStart n a) r = ERestart.
+Proof.
+  intro H. split.
+  - cbn [clean]. rewrite H. apply andb_false_r.
+  - unfold dirty_err. rewrite H. reflexivity.
 Qed.
 
 Lemma c08_scan_clean ws l c0 pre e : scan ws c0 l = (pre, e) -> Forall (fun t => clean ws t = true) pre.
